@@ -94,6 +94,30 @@ pub fn ceil_int(x: &Big) -> Big {
     }
 }
 
+/// A-DEC range: the exact value p / 10^s (s may exceed 28) is representable by rust_decimal, i.e. there is a scale
+/// s' <= 28 and an integer mantissa below 2^96 with the same value.  (Strip trailing decimal zeros of p as far as the
+/// scale allows: that gives the smallest scale and the smallest mantissa at once.)
+pub fn representable(p: &Big, s: u32) -> bool {
+    if p.is_zero() {
+        return true;
+    }
+    let mut p = p.abs();
+    let mut s = s;
+    while s > 0 {
+        let (qq, exact) = p.div_floor_u64(10);
+        if !exact {
+            break;
+        }
+        p = qq;
+        s -= 1;
+    }
+    s <= 28 && p.bits() <= 96
+}
+/// sign bit set on a zero mantissa
+pub fn is_neg_zero(d: &Decimal) -> bool {
+    d.mantissa() == 0 && d.is_sign_negative()
+}
+
 /// build a Decimal from a 96-bit magnitude, sign and scale
 pub fn dec(m: u128, neg: bool, scale: u32) -> Decimal {
     assert!(m < LIMIT96 && scale <= 28);
@@ -129,4 +153,8 @@ pub fn self_test() {
     assert_eq!(dmul(&d.mul_u64(3), &h), d.add(&h)); // 3 * 0.5 = 1.5
     assert_eq!(q(&dec(15, false, 1)), d.add(&h));
     assert_eq!(q(&dec(15, true, 1)), d.add(&h).neg());
+    assert!(representable(&Big::pow10(56), 56) && representable(&Big::zero(), 40) && representable(&Big::from_u128(LIMIT96 - 1), 28));
+    assert!(!representable(&Big::from_u128(LIMIT96), 28) && representable(&Big::from_u128(LIMIT96), 0) == false);
+    assert!(!representable(&Big::from_u64(1), 29) && representable(&Big::from_u64(10), 29) && !representable(&Big::from_u128(LIMIT96 + 1), 1));
+    assert!(representable(&Big::from_u128(LIMIT96 - 6).mul_u64(10), 1)); // (2^96-6)*10 / 10
 }
